@@ -34,6 +34,7 @@ class Evaluator:
         self.ufuns = UFUNS  # uninterpreted specification functions are global (same symbol in every contract)
         self.axioms = []  # global facts (division, sum unfoldings), valid in every state
         self._div_axiom = False
+        self._div_instances = set()
         self.unroll = False  # unroll mode: concrete arities, loops unrolled
         self.check_bounds = True
         self.line = 0
@@ -352,10 +353,13 @@ class Evaluator:
             self.oblige(st, "div", "nonzero", b != 0)
         if st.spec and not isinstance(b, int):
             # python floor division by a symbolic divisor: uninterpreted functions constrained by a quantified axiom (see Evaluator.__init__)
-            if not self._div_axiom:
-                self._div_axiom = True
-                self.axioms.append(_div_axiom())
-            return PYDIV(zint(a), zint(b)) if want == "q" else PYMOD(zint(a), zint(b))
+            q_, r_ = PYDIV(zint(a), zint(b)), PYMOD(zint(a), zint(b))
+            inst = z3.Implies(zint(b) != 0, z3.And(zint(a) == zint(b) * q_ + r_, z3.Implies(zint(b) > 0, z3.And(r_ >= 0, r_ < zint(b))), z3.Implies(zint(b) < 0, z3.And(r_ <= 0, r_ > zint(b)))))
+            key_ = inst.sexpr()
+            if key_ not in self._div_instances:
+                self._div_instances.add(key_)
+                self.axioms.append(inst)  # ground instance of the definition of python floor division
+            return q_ if want == "q" else r_
         if isinstance(b, int):
             a, b = zint(a), zint(b)
             if isinstance(b, int) or z3.is_int_value(b):
